@@ -276,10 +276,13 @@ func (w *kworld) buildCase(impl gmsl.IRoomVersion, A, B, C, D, E *world.Server) 
 		if t.Chance(200) {
 			target = A
 		}
-		p.Type, p.StateKey, p.Content = spec.MRoomMember, world.Str("@t:"+string(target.Name)), map[string]any{"membership": "invite"}
+		// the invitee's ID may be one of the historical kind (upper case, '+',
+		// '~' ...): such users exist, and their servers sign like any other
+		invitee := sim.Pick(t, []string{"@t:", "@t:", "@t:", "@Bob:", "@b+ob~:", "@T_1=x:"}) + string(target.Name)
+		p.Type, p.StateKey, p.Content = spec.MRoomMember, world.Str(invitee), map[string]any{"membership": "invite"}
 		req[target.Name] = target
 		other[target.Name] = target
-		c.desc = "invite of @t:" + string(target.Name)
+		c.desc = "invite of " + invitee
 	case 4: // join carrying join_authorised_via_users_server
 		auth := C
 		if t.Chance(150) {
